@@ -1,7 +1,8 @@
 """C14 — ingress ids unique per live source and stable across reconnects."""
 PROPS_FILE = "Props_C14.v"
 RULE = ("random histories of Register calls over a small identity pool (so re-lookups, collisions and "
-        "re-registrations are frequent); a case is non-trivial when it contains a find-or-register that "
+        "re-registrations are frequent); every second history keeps the callers' discipline incl. the router-level one "
+        "(router queries name unit ids as parent, peer queries never do); a case is non-trivial when it contains a find-or-register that "
         "re-finds an earlier id or an update of an existing entry; distinct = distinct case text")
 TRUSTED_BASE = [
     "Coq 8.16.1 kernel (coqc; coqchk in thorough); no native_compute",
@@ -16,7 +17,9 @@ ASSUMPTIONS = [
 ]
 
 
-def info(rng, nparents, complete=None, meta=False):
+def info(rng, nparents, complete=None, meta=False, units=None):
+    """units (disciplined histories only) = the parent idrefs that stand for unit ids: router queries take their
+    parent from it, peer queries from outside it (the discipline disc_r / disc_hist of C14_lookup_stable_router)"""
     f = ["-"] * 8
     if meta:
         for i in (0, 5, 6, 7):
@@ -24,13 +27,16 @@ def info(rng, nparents, complete=None, meta=False):
                 f[i] = str(rng.below(4))
         return f
     if complete == "peer":
-        f[1] = str(rng.below(max(1, nparents)))
+        if units is None:
+            f[1] = str(rng.below(max(1, nparents)))
+        else:
+            f[1] = str(rng.choice([k for k in range(max(2, nparents) + 1) if k not in units]))
         f[2] = str(rng.below(3))
         f[3] = str(65000 + rng.below(3))
         if rng.chance(70):
             f[4] = str(rng.below(3))
     elif complete == "router":
-        f[1] = str(rng.below(max(1, nparents)))
+        f[1] = str(rng.below(max(1, nparents)) if units is None else rng.choice(units))
         f[2] = str(rng.below(3))
     else:
         for i in range(8):
@@ -45,6 +51,14 @@ def gen_case(rng, disciplined):
     n = rng.range(3, 40)
     ops = ["R"]
     nids = 1
+    units = None
+    if disciplined:
+        # the unit ids of this history: idref 0 (registered first), sometimes a second one
+        units = [0]
+        if rng.chance(35):
+            ops.append("R")
+            nids += 1
+            units.append(1)
     for _ in range(n):
         k = rng.weighted([("R", 10), ("U", 18), ("G", 12), ("C", 12), ("FP", 10), ("FR", 6), ("OP", 22), ("OR", 10)])
         if k == "R":
@@ -55,10 +69,10 @@ def gen_case(rng, disciplined):
         elif k in ("G", "C"):
             ops.append("%s %d" % (k, rng.below(nids + 1)))
         elif k in ("FP", "OP"):
-            ops.append("%s %s" % (k, " ".join(info(rng, nids, "peer" if disciplined or rng.chance(80) else None))))
+            ops.append("%s %s" % (k, " ".join(info(rng, nids, "peer" if disciplined or rng.chance(80) else None, units=units))))
             nids += 1 if k == "OP" else 0
         else:
-            ops.append("%s %s" % (k, " ".join(info(rng, nids, "router" if disciplined or rng.chance(80) else None))))
+            ops.append("%s %s" % (k, " ".join(info(rng, nids, "router" if disciplined or rng.chance(80) else None, units=units))))
             nids += 1 if k == "OR" else 0
     return ";".join(ops)
 
@@ -73,9 +87,36 @@ def nontrivial(case, out):
     return "o:<" in out or ("U " in case and "g:" in out and "g:none" not in out.split()[:1])
 
 
+def router_disciplined(case):
+    """disc_hist of IngressModel.v, read off the case text (idrefs denote distinct ids, so disjoint parent idrefs
+    are disjoint parent ids): updates descriptive only, peer queries complete, router queries complete without AS
+    number, and no peer query names a parent that a router query names"""
+    rp, pp = set(), set()
+    for o in case.split(";"):
+        t = o.split()
+        if t[0] == "U" and any(t[2 + i] != "-" for i in (1, 2, 3, 4)):
+            return False
+        if t[0] == "OP":
+            if "-" in (t[2], t[3], t[4]):
+                return False
+            pp.add(t[2])
+        if t[0] == "OR":
+            if "-" in (t[2], t[3]) or t[4] != "-":
+                return False
+            rp.add(t[2])
+    return not (rp & pp)
+
+
 def classify(case, out):
     ks = []
     toks = out.split()
+    if router_disciplined(case):
+        ks.append("router-discipline")
+        cops = case.split(";")
+        refound = [t for o, t in zip(cops, toks) if o.startswith("OR ") and t.startswith("o:<")]
+        if refound:
+            # C14_lookup_stable_router: exactly one candidate
+            ks.append("router-refound-unique" if all("|" not in t for t in refound) else "ROUTER-REFOUND-AMBIGUOUS-UNDER-DISCIPLINE")
     ks.append("len<=10" if len(toks) <= 10 else "len<=25" if len(toks) <= 25 else "len>25")
     if any(t.startswith("o:<") for t in toks):
         ks.append("refound")
@@ -93,6 +134,10 @@ def corpus():
         "R;R;U 0 1 - 5 - - - 3 -;U 0 - - - 7 - - - 9;G 0;OP - 0 1 65000 0 - - -;OP - 0 1 65000 0 - - -;C 0;FP - 0 1 65000 0 - - -;G 5",
         "R;OR - 0 1 - - - - -;OP - 1 2 65001 0 - - -;OP - 1 2 65001 1 - - -;OP - 1 2 65001 0 - - -;C 1;C 0",
         "U 3 - - - - - - 1 -;R;R;R;R;G 3;OP - 0 0 65000 - - - -;G 4",
+        # router level, disciplined (unit = idref 0): router, its peers (one with the router's own address), a second router, re-finds
+        "R;OR - 0 1 - - - - -;OP - 1 1 65000 0 - - -;OP - 1 2 65001 - - - -;OR - 0 2 - - - - -;U 1 - - - - - - 3 -;OR - 0 1 - - - - -;FR - 0 1 - - - - -;OR - 0 2 - - - - -;C 0",
+        # ... and without the separation of parents: a peer under the router query's own (parent, address) answers it too
+        "R;OR - 0 1 - - - - -;OP - 0 1 65000 0 - - -;FR - 0 1 - - - - -;OR - 0 1 - - - - -",
     ]
 
 
@@ -115,7 +160,7 @@ TRUSTED_BASE.append(E2E_TRUSTED)
 EXTRAS = [race]
 
 LEVEL_TEXT = ("Theorems over all call histories of the Register model (freshness below the u32 bound, wrap-around shown sharp, "
-              "lookup stability under the callers' discipline, children-exactness, field-wise merge), kernel-checked, axiom-free; "
+              "lookup stability of peers and of routers under the callers' discipline, children-exactness, field-wise merge), kernel-checked, axiom-free; "
               "model tied to src/ingress.rs by differential execution of thousands of generated histories on every run.")
 DESIGN_REF = "DESIGN.md section 6, C14"
 LEVEL_NOTE = ("Trusted: Coq kernel, ExtrOcamlBasic extraction + OCaml driver, Rust harness and generators; atomicity of each Register method "
